@@ -5,6 +5,10 @@ IMPL   harness/h_c14_probe.cpp   the functor_t / functor_composition_t / combina
        harness/h_c14_ext.cpp     get_function_composition / get_function_operands / apply / get_compute_graph on views of depth 1..4,
                                  operands of every kind the extraction code tells apart: host arrays, aliased arrays, number literals,
                                  array-valued views and NUMBER-valued views (reductions over all axes: 0-d, `is_num_v` AND `is_view_v`)
+       harness/h_c14_mb.cpp      compositions f * g with g returning an nmtools_maybe<view> (run-time validated reshape / broadcast_to / expand_dims /
+                                 moveaxis, succeeding and failing) and f every attribute-carrying functor (parametrised unary ufuncs, reductions,
+                                 indexing, binary functors, norms) vs the direct view call on the unwrapped operand; binary functors called with a
+                                 maybe operand all at once
 MODEL  lean/NmVerif/Functional.lean (applyFn, applyComp/run, FC.mul, combinators, compile with the operand dispatch `View.dispatch`,
        operandsOf, IView.graph) over symbolic values
 ORACLE python: composition as function composition on operand lists following the parenthesisation tree; NumPy for the view
@@ -23,6 +27,7 @@ RULE = ('probe machine: every composition of a menu of 75 (1..5 functors: probes
         '(exact, over- and under-supplied), attribute/operand interleavings for arity 1..5; functors: 43 functors of array/functional (indexing, ufunc, reduce, accumulate, outer, matmul, pooling, norms, activations) '
         'x every curry split and attribute-before/after-operand form vs the direct view, random shapes dim 1..4; extraction: 84 view trees of depth 1..4 with the sub-view in every operand position of unary / binary / ternary nodes, '
         'number-valued sub-views (reduce_add / reduce_maximum / sum over all axes) as first and non-first operands of binary ufuncs alone, nested, under and over other nodes, with repeated and aliased leaves, number literal operands in either position, where with a number-valued condition, unary ufuncs whose op carries run-time parameters (8 parametrised activations, two non-default values each, alone / inner / outer node / first / non-first operand / two in one chain; float leaves, binary32 bit patterns compared within tolerance) '
+        'maybe-operand compositions: 48 attribute-carrying functors f (10 parametrised unary ufuncs with two non-default parameter sets each incl. attribute prefixes with the rest defaulted, 13 reductions / accumulations with axis / initial / keepdims, 11 indexing and binary functors, 5 norms) composed to the left of a run-time validated g (reshape / broadcast_to / expand_dims / moveaxis, random shapes dim 1..3, about a quarter failing) in the forms (f*g)(a), (f*g)()(a), f(g(a)), f(view_g(a)), view_f(view_g(a), attrs) vs view_f(unwrap(view_g(a)), attrs), bit-exact, and vs NumPy; '
         '(operand identity by address, static arity, apply(composition, operands) vs view, compute graphs incl. aliased leaves). non-trivial = more than one functor or more than one chunk; every functor / extraction case')
 EXHAUSTIVE = {'quick': False, 'thorough': False}
 ANCHORS = {'NmVerif.Functional.applyFn': 'functional::apply_function_t<functor_t>::operator() (functor.hpp:368-428), functor_t::operator[] / operator()',
@@ -35,9 +40,10 @@ ANCHORS = {'NmVerif.Functional.applyFn': 'functional::apply_function_t<functor_t
            'NmVerif.Functional.View.operandsOf': 'functional::get_function_operands (functor.hpp:776-812)',
            'NmVerif.Functional.Comp.arity': 'functor_composition_t::arity (functor.hpp:134-146), demanded equal to the operand count by functional::apply (functor.hpp:833-835)',
            'NmVerif.Functional.IView.graph': 'functional::get_compute_graph (compute_graph.hpp:14-275) over utility::ct_map / ct_digraph',
-           'NmVerif.Functional.generateAlias': 'index::generate_alias (index/alias.hpp:60-88)'}
+           'NmVerif.Functional.generateAlias': 'index::generate_alias (index/alias.hpp:60-88)',
+           'NmVerif.Functional.Functor.liftMaybe': 'the is_maybe_v<array_t> branch of the view functions (view::unary_ufunc view/ufunc.hpp:121-130, binary_ufunc, reduce, indexing views): has_value ? maybe{view(*array, attributes...)} : Nothing'}
 MANIFEST = dict(
-    text='Proof: Lean theorems over ARBITRARY functors (any arity, any operand/attribute types): currying in every split equals one call (curry_any_split, curry_chunks), composition = apply the right-most functor and pass the rest on (comp_apply, comp_two), parenthesisation irrelevant (comp_assoc), combinators are the stated permutations, and a compiler-correctness theorem for extraction (compile_correct/compile_frame: extracted composition applied to extracted operands = host evaluation, by induction on the view tree) on the trees where it holds — with a machine-checked counterexample outside — and compile_arity (the static arity of the extracted composition is the number of extracted operands for every well-formed tree, so functional::apply compiles), compile_one_functor_per_op (one functor per operation, none for arrays / aliases / literals), compile_preserves_params (the composition in execution order is the post-order list of the operations of the tree, each functor with the attribute list of its view: run-time parameters of the op of a ufunc are never lost or exchanged) and operand_dispatch (the type-trait chain applied to every operand never drops the composition of a view, in particular not of a number-valued view, which is a number and a view at once); the view trees of these theorems contain every operand kind the code distinguishes (host array, alias, number literal, array-valued view, number-valued view); tied to the C++ by differential runs of the real functor machinery (probe functors), of the array/functional functors against direct view calls, and of extraction / operand identity / compute graphs on view trees.',
+    text='Proof: Lean theorems over ARBITRARY functors (any arity, any operand/attribute types): currying in every split equals one call (curry_any_split, curry_chunks), composition = apply the right-most functor and pass the rest on (comp_apply, comp_two), parenthesisation irrelevant (comp_assoc), combinators are the stated permutations, and a compiler-correctness theorem for extraction (compile_correct/compile_frame: extracted composition applied to extracted operands = host evaluation, by induction on the view tree) on the trees where it holds — with a machine-checked counterexample outside — and compile_arity (the static arity of the extracted composition is the number of extracted operands for every well-formed tree, so functional::apply compiles), compile_one_functor_per_op (one functor per operation, none for arrays / aliases / literals), compile_preserves_params (the composition in execution order is the post-order list of the operations of the tree, each functor with the attribute list of its view: run-time parameters of the op of a ufunc are never lost or exchanged), maybe_view_forwards_attrs / maybe_nothing_propagates / maybe_comp_unwrap (a composition applied to nmtools_maybe operands commutes with unwrapping: same attributes, same values, wrapped; Nothing propagates) and operand_dispatch (the type-trait chain applied to every operand never drops the composition of a view, in particular not of a number-valued view, which is a number and a view at once); the view trees of these theorems contain every operand kind the code distinguishes (host array, alias, number literal, array-valued view, number-valued view); tied to the C++ by differential runs of the real functor machinery (probe functors), of the array/functional functors against direct view calls, and of extraction / operand identity / compute graphs on view trees.',
     note='Lean kernel + propext/Classical.choice/Quot.sound. Node-id uniqueness of the compute graph is not a theorem (ids are hashes mod 1033 and graph-size counters): checked per explored program. Known findings: extraction is wrong when a view operand is not the first operand (also for view::softmax of the library itself; repair proposed: fixes/C14-extract.nonfirst-view-operand.diff, follow-up on branch w4/c1314-postfix); compute-graph ids of sibling sub-views over un-aliased leaves collide (no small repair: ids are part of the view type). Repaired: dangling reference in get_function_composition (regression programs kept; ASan build in the thorough tier).',
     technique='Lean 4 proofs over an abstract stack machine (compiler correctness by mutual structural induction) + differential correspondence')
 ASSUMPTIONS = ['functors are pure functions of (attributes, operands)',
@@ -56,7 +62,8 @@ def harness_specs(tier):
         san = [dict(name='h_c14_ext%d_san' % g, src='h_c14_ext.cpp', flavour='san', extra=['-DC14_GROUP=%d' % g] + FLT(g)) for g in SAN_GROUPS]
     return san + ([dict(name='h_c14_probe%d' % g, src='h_c14_probe.cpp', flavour='fast', extra=['-DC14_PROBE_GROUP=%d' % g]) for g in PROBE_GROUPS] +
             [dict(name='h_c14_ext%d' % g, src='h_c14_ext.cpp', flavour='fast', extra=['-DC14_GROUP=%d' % g] + FLT(g)) for g in EXT_GROUPS] +
-            [dict(name='h_c14_fn%d' % g, src='h_c14_fn.cpp', flavour='fast', extra=['-DC14_FN_GROUP=%d' % g]) for g in FN_GROUPS])
+            [dict(name='h_c14_fn%d' % g, src='h_c14_fn.cpp', flavour='fast', extra=['-DC14_FN_GROUP=%d' % g]) for g in FN_GROUPS] +
+            [dict(name='h_c14_mb%d' % g, src='h_c14_mb.cpp', flavour='fast', extra=['-DC14_MB_GROUP=%d' % g]) for g in MB_GROUPS])
 
 
 # ---------------------------------------------------------------------------------------------------------------
@@ -870,6 +877,205 @@ def fn_cases(tier, rng):
                        model=False, cmp=fn_cmp, nontrivial=True, tags=['fn', 'functor=' + name, 'arity=%d' % e['n']])
 
 
+# ---------------------------------------------------------------------------------------------------------------
+# compositions f * g with g returning a maybe<view> (validated at run time) and f carrying attributes (h_c14_mb.cpp)
+# ---------------------------------------------------------------------------------------------------------------
+def mleaf(shape, j, data):
+    n = prod(shape); k = np.arange(n, dtype=np.int64)
+    if data == 'float':
+        return (0.5 * ((k * 7 + 3 * j) % 13) - 3.0).reshape(shape)
+    if data == 'small':
+        return (((k * 5 + 2 * j) % 7) + 1).reshape(shape)
+    return (k + 1000 * j).reshape(shape)
+
+
+def _mb_g(rng):
+    """a run-time validated g: (name, operand shape, attributes of g, numpy function) — about one in four fails"""
+    fail = rng.random() < 0.25
+    kind = rng.choice(['reshape', 'reshape', 'broadcast_to', 'broadcast_to', 'expand_dims', 'moveaxis'])
+    if kind == 'reshape':
+        s = rshape(rng, max_rank=3, cap=24); n = prod(s)
+        d = rng.choice([x for x in range(1, n + 1) if n % x == 0]); to = [d, n // d]
+        if rng.random() < 0.4:
+            e = rng.choice([x for x in range(1, to[1] + 1) if to[1] % x == 0]); to = [to[0], e, to[1] // e]
+        if rng.random() < 0.2:
+            to = [n]
+        if fail:
+            to[rng.randrange(len(to))] += rng.choice([1, 2])
+        return kind, s, dict(gto=to), lambda x: x.reshape(to)
+    if kind == 'broadcast_to':
+        t = rshape(rng, max_rank=3, cap=24); s = bpartner(rng, t)
+        if fail:
+            i = rng.randrange(len(s)); s = list(s); s[i] = t[len(t) - len(s) + i] + 1
+        return kind, s, dict(gto=t), lambda x: np.broadcast_to(x, t)
+    if kind == 'expand_dims':
+        s = rshape(rng, max_rank=3, cap=24); ax = rng.randint(len(s) + 1, len(s) + 2) if fail else rng.randint(0, len(s))
+        return kind, s, dict(gaxis=ax), lambda x: np.expand_dims(x, ax)
+    s = rshape(rng, min_rank=2, max_rank=3, cap=24); a, b = rng.randrange(len(s)), rng.randrange(len(s))
+    if fail:
+        if rng.random() < 0.5:
+            a = len(s) + rng.randint(0, 1)
+        else:
+            b = len(s) + rng.randint(0, 1)
+    return kind, s, dict(gsrc=a, gdst=b), lambda x: np.moveaxis(x, a, b)
+
+
+def _mb_table():
+    T = {}
+
+    def add(name, group, ref, attrs, data='prov', n=1, second=None):
+        # attrs(rng, t) -> attributes of f for an operand of shape t (or None: no instance for that shape)
+        T[name] = dict(group=group, ref=ref, attrs=attrs, data=data, n=n, second=second)
+    # --- parametrised unary ufuncs: two NON-DEFAULT values each (quarter units), binary32 ---
+    def pvals(vals):
+        cyc = itertools.cycle(vals)
+        return lambda rng, t: dict(pq=list(next(cyc)))
+    q = lambda p, i: F32(0.25 * p['pq'][i])
+    f32 = lambda x: np.asarray(x, dtype=np.float32)
+    add('leaky_relu', 1, lambda x, p: POPS['leaky_relu'](f32(x), [q(p, 0)]), pvals([(2,), (12,)]), 'float')
+    add('prelu', 1, lambda x, p: POPS['prelu'](f32(x), [q(p, 0)]), pvals([(2,), (16,)]), 'float')
+    add('elu', 1, lambda x, p: POPS['elu'](f32(x), [q(p, 0)]), pvals([(2,), (10,)]), 'float')
+    add('celu', 1, lambda x, p: POPS['celu'](f32(x), [q(p, 0)]), pvals([(2,), (10,)]), 'float')
+    add('hardtanh', 1, lambda x, p: POPS['hardtanh'](f32(x), [q(p, 0), q(p, 1)]), pvals([(-2, 3), (-10, 8)]), 'float')
+    add('hardtanh1', 1, lambda x, p: POPS['hardtanh'](f32(x), [q(p, 0), F32(1)]), pvals([(-2,), (-10,)]), 'float')        # max_val defaulted
+    add('softplus', 1, lambda x, p: POPS['softplus'](f32(x), [q(p, 0), q(p, 1)]), pvals([(8, 2), (2, 4)]), 'float')
+    add('softplus1', 1, lambda x, p: POPS['softplus'](f32(x), [q(p, 0), F32(20)]), pvals([(8,), (2,)]), 'float')          # threshold defaulted
+    add('hardshrink', 1, lambda x, p: POPS['hardshrink'](f32(x), [q(p, 0)]), pvals([(1,), (8,)]), 'float')
+    add('softshrink', 1, lambda x, p: POPS['softshrink'](f32(x), [q(p, 0)]), pvals([(1,), (5,)]), 'float')
+    none = lambda rng, t: {}
+    add('relu', 1, lambda x, p: np.maximum(f32(x), 0), none, 'float')
+    add('leaky_relu0', 1, lambda x, p: POPS['leaky_relu'](f32(x), [F32(0.01)]), none, 'float')
+    # --- reductions / accumulations ---
+    def ax(rng, t):
+        return dict(axis=rng.randrange(len(t))) if len(t) >= 1 else None
+    def ax2(rng, t):        # reductions to an array: rank >= 2
+        return dict(axis=rng.randrange(len(t))) if len(t) >= 2 else None
+    def ax2i(rng, t):
+        return dict(axis=rng.randrange(len(t)), init=rng.choice([-5, 3, 7, 100])) if len(t) >= 2 else None
+    def ax2m(rng, t):
+        return dict(axis=rng.randrange(len(t)), init=rng.choice([2, 3])) if len(t) >= 2 and max(t) <= 3 else None
+    add('reduce_add', 2, lambda x, p: np.sum(x, axis=p['axis']), ax2)
+    add('reduce_add_init', 2, lambda x, p: np.sum(x, axis=p['axis'], initial=p['init']), ax2i)
+    add('reduce_add_keep', 2, lambda x, p: np.sum(x, axis=p['axis'], keepdims=True), ax2)
+    add('reduce_add_init_keep', 2, lambda x, p: np.sum(x, axis=p['axis'], initial=p['init'], keepdims=True), ax2i)
+    add('reduce_maximum', 2, lambda x, p: np.max(x, axis=p['axis']), ax2)
+    add('reduce_maximum_init_keep', 2, lambda x, p: np.max(x, axis=p['axis'], initial=p['init'], keepdims=True), ax2i)
+    add('reduce_multiply_init', 2, lambda x, p: np.prod(x, axis=p['axis'], initial=p['init']), ax2m, 'small')
+    add('accumulate_add', 2, lambda x, p: np.cumsum(x, axis=p['axis']), ax)
+    add('sum', 2, lambda x, p: np.sum(x, axis=p['axis']), ax2)
+    add('sum_init_keep', 2, lambda x, p: np.sum(x, axis=p['axis'], initial=p['init'], keepdims=True), ax2i)
+    add('prod', 2, lambda x, p: np.prod(x, axis=p['axis']), lambda rng, t: ax2(rng, t) if max(t) <= 3 else None, 'small')
+    add('cumsum', 2, lambda x, p: np.cumsum(x, axis=p['axis']), ax)
+    add('cumprod', 2, lambda x, p: np.cumprod(x, axis=p['axis']), lambda rng, t: ax(rng, t) if max(t) <= 3 else None, 'small')
+    # --- indexing functors (f itself may fail at run time: reshape / broadcast_to) ---
+    add('transpose', 3, lambda x, p: np.transpose(x, p['axes']), lambda rng, t: dict(axes=perm(rng, len(t))))
+    add('tile', 3, lambda x, p: np.tile(x, p['reps']), lambda rng, t: dict(reps=[rng.randint(1, 2) for _ in range(rng.randint(1, len(t) + 1))]))
+    add('repeat', 3, lambda x, p: np.repeat(x, p['r'], p['axis']), lambda rng, t: dict(r=rng.randint(1, 3), axis=rng.randrange(len(t))))
+    add('moveaxis', 3, lambda x, p: np.moveaxis(x, p['src'], p['dst']), lambda rng, t: dict(src=rng.randrange(len(t)), dst=rng.randrange(len(t))))
+    def a_reshape(rng, t):
+        n = prod(t); d = rng.choice([x for x in range(1, n + 1) if n % x == 0]); to = [d, n // d]
+        if rng.random() < 0.2:
+            to[0] += 1
+        return dict(to=to)
+    add('reshape', 3, lambda x, p: x.reshape(p['to']), a_reshape)
+    def a_bcast(rng, t):
+        to = [rng.randint(1, 2)] * rng.randint(0, 1) + [e if e > 1 else rng.randint(1, 3) for e in t]
+        if rng.random() < 0.2:
+            to[-1] += 1
+        return dict(to=to)
+    add('broadcast_to', 3, lambda x, p: np.broadcast_to(x, p['to']), a_bcast)
+    add('flatten', 3, lambda x, p: x.reshape(-1), none)
+    add('negative', 3, lambda x, p: -x, none)
+    # binary functors: the second operand is passed on behind the (maybe) result of g
+    add('add', 3, lambda x, p, y: x + y, none, n=2, second=lambda rng, t: bpartner(rng, t))
+    add('subtract', 3, lambda x, p, y: x - y, none, n=2, second=lambda rng, t: bpartner(rng, t))
+    def s_concat(rng, t, p):
+        u = list(t); u[p['axis']] = rng.randint(1, 3); return u
+    add('concatenate', 3, lambda x, p, y: np.concatenate([x, y], p['axis']), ax, n=2, second=s_concat)
+    # --- norms (double) ---
+    add('mean', 4, lambda x, p: np.mean(x, axis=p['axis']), ax2, 'float')
+    add('var', 4, lambda x, p: np.var(x, axis=p['axis']), ax2, 'float')
+    add('stddev', 4, lambda x, p: np.std(x, axis=p['axis']), ax2, 'float')
+    add('softmax', 4, lambda x, p: softmax_np(x, p['axis']), ax2, 'float')
+    add('softmin', 4, lambda x, p: softmax_np(-x, p['axis']), ax2, 'float')
+    return T
+
+
+MB = _mb_table()
+MB_GROUPS = [1, 2, 3, 4]
+
+
+def make_mb_cmp(rtol, atol):
+    def cmp(a, b):
+        if not (a.startswith('ok ') and b.startswith('ok ')):
+            return a == b
+        da, db = parse_kv(a), parse_kv(b)
+        if any(da.get(k) != db.get(k) for k in ('shape', 'forms', 'agree')):
+            return False
+        fa = np.array([float(v) for v in da['data'].split(',')]) if da['data'] != '[]' else np.array([])
+        fb = np.array([float(v) for v in db['data'].split(',')]) if db['data'] != '[]' else np.array([])
+        return fa.shape == fb.shape and bool(np.allclose(fa, fb, rtol=rtol, atol=atol))
+    return cmp
+
+
+MB_CMP = {1: make_mb_cmp(2e-5, 2e-6), 2: make_mb_cmp(0, 0), 3: make_mb_cmp(0, 0), 4: make_mb_cmp(1e-7, 1e-9)}
+
+
+def mb_cases(tier, rng):
+    ncase = 6 if tier == 'quick' else 40
+    for name, e in MB.items():
+        made = tries = nfail = 0
+        while made < ncase and tries < 40 * ncase:
+            tries += 1
+            gname, s, gattrs, gfun = _mb_g(rng)
+            x = mleaf(s, 0, e['data'])
+            try:
+                gx = gfun(x); t = list(gx.shape)
+            except ValueError:          # (numpy.AxisError is a ValueError)
+                gx = None; t = None
+            if gx is None and nfail >= max(1, ncase // 3):
+                continue
+            # attributes of f: for the shape g produces (g failing: for the operand's own shape — they are never looked at)
+            p = e['attrs'](rng, t if t is not None else s)
+            if p is None:
+                continue
+            shapes = [s]; env = [x]
+            if e['n'] == 2:
+                tt = t if t is not None else s
+                s1 = e['second'](rng, tt, p) if name == 'concatenate' else e['second'](rng, tt)
+                shapes.append(s1); env.append(mleaf(s1, 1, e['data']))
+            res = None
+            if gx is not None:
+                try:
+                    res = np.asarray(e['ref'](gx, p, *env[1:]))
+                except ValueError:
+                    res = None
+                if res is not None and (res.size == 0 or res.size > 64 or (res.dtype.kind == 'i' and np.abs(res).max() >= 2 ** 31)):
+                    continue
+            nforms = 2 if gx is None else (5 if e['n'] == 1 else 4)
+            if res is None:
+                oracle = 'nothing forms=%d agree=%d' % (nforms, nforms)
+            else:
+                data = ','.join(('%d' % v) if res.dtype.kind == 'i' else ('%.12g' % v) for v in res.reshape(-1))
+                oracle = 'ok shape=%s data=%s forms=%d agree=%d' % (fmt(list(res.shape)), data, nforms, nforms)
+            made += 1; nfail += gx is None
+            req = ' '.join(('c14_mb f=%s g=%s shapes=%s %s %s data=%s' % (name, gname, fmt_lists(shapes), fmt_params(gattrs), fmt_params(p), e['data'])).split())
+            yield Case(req, 'h_c14_mb%d' % e['group'], oracle=oracle, model=False, cmp=MB_CMP[e['group']], nontrivial=True,
+                       tags=['maybe-comp', 'f=' + name, 'g=' + gname, 'g-fails' if gx is None else ('f-fails' if res is None else 'valid'),
+                             'f-attrs=%d' % len(p)])
+            if e['n'] == 2 and res is not None and made <= 3:
+                # the binary functor called with all operands at once, the maybe<view> (which has a value) in either position
+                for pos in (0, 1):
+                    try:
+                        r2 = np.asarray(e['ref'](gx, p, env[1]) if pos == 0 else e['ref'](env[1], p, gx))
+                    except ValueError:
+                        continue
+                    d2 = ','.join('%d' % v for v in r2.reshape(-1))
+                    yield Case(req.replace('c14_mb ', 'c14_mbcall ', 1) + ' pos=%d' % pos, 'h_c14_mb%d' % e['group'], dom=False,
+                               oracle='ok shape=%s data=%s' % (fmt(list(r2.shape)), d2), model=False, nontrivial=True,
+                               tags=['maybe-call', 'f=' + name, 'g=' + gname, 'pos=%d' % pos])
+
+
 def gen(tier, rng):
     yield from probe_cases(tier, rng)
     k = 0
@@ -880,6 +1086,7 @@ def gen(tier, rng):
         if tier == 'thorough' and c.dom and c.req.startswith('c14_extract') and g in SAN_GROUPS and k % 3 == 0:
             yield Case(c.req, c.harness + '_san', dom=True, oracle=c.oracle, model=False, cmp=c.cmp, nontrivial=False, tags=list(c.tags) + ['san'])
     yield from fn_cases(tier, rng)
+    yield from mb_cases(tier, rng)
 
 
 def _args(c):
@@ -894,4 +1101,40 @@ def sibling_subviews_unaliased(c):
     return c.req.startswith('c14_graph ') and EXT.get(_args(c).get('prog'), {}).get('sibling', False)
 
 
-KNOWN_PREDICATES = {'nonfirst_view_operand': nonfirst_view_operand, 'sibling_subviews_unaliased': sibling_subviews_unaliased}
+def mb_g_fails(a):
+    """does the run-time validated g of a c14_mb request reject its arguments? (decided from the request alone, NumPy rules)"""
+    ints = lambda k: [int(v) for v in a[k].split(',')]
+    s = [int(v) for v in a['shapes'].split(';')[0].split(',')]
+    x = np.zeros(s)
+    try:
+        g = a['g']
+        if g == 'reshape':
+            x.reshape(ints('gto'))
+        elif g == 'broadcast_to':
+            np.broadcast_to(x, ints('gto'))
+        elif g == 'expand_dims':
+            np.expand_dims(x, int(a['gaxis']))
+        elif g == 'moveaxis':
+            np.moveaxis(x, int(a['gsrc']), int(a['gdst']))
+        else:
+            return False
+    except ValueError:
+        return True
+    return False
+
+
+def norm_over_nothing(c):
+    """mean / var / stddev to the left of a g whose run-time validation FAILS: the view functions unwrap the Nothing operand"""
+    if not c.req.startswith('c14_mb '):
+        return False
+    a = _args(c)
+    return a.get('f') in ('mean', 'var', 'stddev') and mb_g_fails(a)
+
+
+def maybe_operand_all_at_once(c):
+    """a functor of arity 2 called with both operands at once, one of them a maybe<view> that has a value"""
+    return c.req.startswith('c14_mbcall ') and not mb_g_fails(_args(c))
+
+
+KNOWN_PREDICATES = {'nonfirst_view_operand': nonfirst_view_operand, 'sibling_subviews_unaliased': sibling_subviews_unaliased,
+                    'norm_over_nothing': norm_over_nothing, 'maybe_operand_all_at_once': maybe_operand_all_at_once}
